@@ -32,6 +32,12 @@ AUDIT = {
         (1, "reached only through wide CHA of AsRef; full-range index of a fixed array"),
 }
 
+AUDIT.update({
+    ("aranya_crypto::afc::keys::AuthData::to_bytes", "index[[u8; 36]]"):
+        (2, "b[0..4] and b[4..] on a [u8; PACKED_SIZE = 36] array: constant ranges"),
+    ("aranya_crypto::afc::keys::AuthData::to_bytes", "copy_from_slice"):
+        (1, "b[4..] has 32 bytes == LabelId::as_bytes().len()"),
+})
 BUG_AUDIT = {
     "aranya_fast_channels::header::DataHeader::try_parse": "split_first_chunk on a fixed-size array: sizes are compile-time constants",
     "aranya_fast_channels::header::Header::try_parse": "same: fixed-size array splits",
